@@ -7,7 +7,7 @@ from ..terms import A, C, F, V, L, NIL, call, conj, TRUE, FAIL, show_clause, sho
 
 ID = 'C01'
 LEVEL = 'model_checking'
-RULE = ('(L7) every ordered triple of a 13-clause alphabet over two predicates in which the same variable names play different roles and some clauses are decidable at compile time (fail first, true before fail); ' 'L1: every single-clause predicate p(t1..tk) :- B, k<=2 over 14 head-argument shapes incl. [X,Y|T] (k=3 over 7, '
+RULE = ('(L8) every parenthesisation of up to 4 goals out of {m(Vi), o(Vi), m(V1), true, fail}; (L7) every ordered triple of a 13-clause alphabet over two predicates in which the same variable names play different roles and some clauses are decidable at compile time (fail first, true before fail); ' 'L1: every single-clause predicate p(t1..tk) :- B, k<=2 over 14 head-argument shapes incl. [X,Y|T] (k=3 over 7, '
         'and k=0), B in {true, one [thorough: or two] goals from q(X) q(Y) r(X,Y) X=Y X=a X\\=a Y=f(X) fail}, each '
         'queried with EVERY tuple of query-argument shapes (unbound, aliased, partial, ground). L2: every program '
         'of <=2 [thorough: 3] clauses over p/1,q/1 with head argument in {X,a,b,f(X)} and body of <=1 goal '
@@ -458,6 +458,20 @@ def l7_cases():
         idx += 1
 
 
+# ---- L8: how a conjunction is parenthesised does not matter ------------------------------------------------
+# every way of grouping up to 4 goals out of {m(Vi), o(Vi), m(V1), true, fail} with parentheses: (A, B), C is
+# A, (B, C) - in particular a fail or true inside a group is a goal like any other
+def l8_cases():
+    from .. import bodies
+    idx = 0
+    for n in (1, 2, 3):
+        for t in bodies.trees(n, ['m', 'o', 's', 'true', 'fail']):
+            if bodies.ops_used(t) - {','}:
+                continue
+            yield idx, t
+            idx += 1
+
+
 def plan(tier):
     q = tier == 'quick'
     sh = [('L1', k, NSH, 1 if q else 2) for k in range(NSH)]
@@ -470,6 +484,7 @@ def plan(tier):
     sh += [('L5', k, 8) for k in range(8)]
     sh += [('L6', k, 16) for k in range(16)]
     sh += [('L7', k, 16) for k in range(16)]
+    sh += [('L8', k, 16) for k in range(16)]
     sh += [('L2b', k, NSH, 3) for k in range(NSH)]
     sh += [('L1b', k, 16, 2) for k in range(16)] + [('L1b', k, NSH, 3) for k in range(NSH)]
     if not q:
@@ -531,6 +546,18 @@ def run_shard(spec):
             account(acc, ('L2b', ncl, idx), case, res, key=case.describe()['scripts'][1]['text'])
             if idx % 3001 == 0 and res['status'] == 'ok' and res['nontrivial']:
                 acc.sample({'layer': 'L2b', 'program': case.describe()['scripts'][1]['text']}, limit=1)
+    elif spec[0] == 'L8':
+        from .. import bodies
+        from . import treecheck
+        _, k, n = spec
+        for idx, t in l8_cases():
+            if idx % n != k:
+                continue
+            case = treecheck.tree_case(t, continuation=True)
+            res = case.run()
+            if res['status'] == 'violation':
+                res['sig'] = 'grouping-of-a-conjunction:' + res['sig']
+            account(acc, ('L8', idx), case, res, key='L8|%s' % bodies.show_tree(t))
     elif spec[0] == 'L7':
         _, k, n = spec
         qs = [F('s', QA, QB), F('pr', QA, QB), F('pr', A('right'), QB), F('s', QA, QA), F('pr', F('f', QA), QB)]
